@@ -61,6 +61,8 @@ class C20(Machine):
                 if op == "repeat" and repeat_pool:
                     name, args = rng.choice(repeat_pool)
                     ex = {"post": "list"} if name == "combink" else {}
+                    if args and isinstance(args[0], dict) and "obj" in args[0]:
+                        ex["lst"] = args[0]["obj"]
                     pb.step(c, k="call", obj=fn[name], name="__call__", args=args, kw={}, tag=name + ":again", role="eager", fname=name, **ex)
                     continue
                 if op == "repeat":
@@ -108,10 +110,19 @@ class C20(Machine):
                     tot = sum(i["t"][1] for i in items)
                     s = rng.choice([0, 1, tot, max(0, tot - 1), rng.randint(0, tot + 1), rng.randint(0, tot + 1)])
                     args = [items, s]
-                    pb.step(c, k="call", obj=fn[op], name="__call__", args=args, kw={}, tag="%s:n%d" % (op, len(items)), role="eager", fname=op)
+                    extra = {}
+                    if rng.random() < 0.5:
+                        # the caller keeps ONE list object and passes it again later: a helper that
+                        # reorders or consumes its argument makes the repeated call differ
+                        lo = pb.obj({"kind": "value", "val": items})
+                        meta["lists"][str(lo)] = items
+                        pb.plan["observe"].append([lo, ""])
+                        args = [{"obj": lo}, s]
+                        extra = {"lst": lo}
+                    pb.step(c, k="call", obj=fn[op], name="__call__", args=args, kw={}, tag="%s:n%d" % (op, len(items)), role="eager", fname=op, **extra)
                     repeat_pool.append((op, args))
                     if rng.random() < 0.5:
-                        pb.step(c, k="call", obj=fn[op], name="__call__", args=args, kw={}, tag=op + ":again", role="eager", fname=op)
+                        pb.step(c, k="call", obj=fn[op], name="__call__", args=args, kw={}, tag=op + ":again", role="eager", fname=op, **extra)
         plan = pb.finish(rng)
         plan["meta"].update(meta)
         return plan
@@ -143,6 +154,11 @@ class C20(Machine):
                     orig = meta["lists"][str(s["lst"])]
                     objects.append({"kind": "value", "val": list(orig)})
                     margs = [{"obj": 1}, s["kk"]]
+                elif "lst" in s:
+                    # the pristine twin gets the list as the caller first built it
+                    objects.append({"kind": "value", "val": meta["lists"][str(s["lst"])]})
+                    margs = [{"obj": 1}] + list(args[1:])
+                    probe("call_on_a_list_object_the_caller_keeps")
                 mini = {"objects": objects, "steps": [{"id": 1, "k": "call", "obj": 0, "name": "__call__", "args": margs,
                         "kw": {}, **({"post": "list"} if s.get("post") else {})}], "observe": [], "fp": []}
                 exp = oracle.ask(mini)[0]["out"]
